@@ -9,14 +9,22 @@ is not inside its buffer (the specification predicate of the property, evaluated
 import Driver.Util
 import Sqfs.Model.ReaderEnv
 import Sqfs.Model.ReaderWalk
+import Sqfs.Model.ReaderTables
 namespace Driver.C05
-open Sqfs.ReaderBounds Sqfs.ReaderEnv Sqfs.ReaderWalk
+open Sqfs.ReaderBounds Sqfs.ReaderEnv Sqfs.ReaderWalk Sqfs.ReaderTables
 
 structure St where
   fixed : Bool
   img : ByteArray := ByteArray.empty
   cfg : Option (UInt64 × UInt64) := none
   m : MetaSt := MetaSt.init
+  sb : Super := default                         -- `sb` line: the superblock the table/xattr/dir ops use
+  ids : Array UInt8 := #[]                      -- contents of the id table read last
+  idUsed : UInt64 := 0
+  frags : Array UInt8 := #[]
+  fragUsed : UInt64 := 0
+  x : XattrSt := XattrSt.init
+  xpos : Bool := false                          -- a `xseek` succeeded since `xnew`/`xload` (contract of `xkey`/`xval`)
 
 def num (s : String) : Option Nat := s.toNat?
 def u64 (s : String) : Option UInt64 := (num s).map (·.toUInt64)
@@ -33,7 +41,11 @@ def bufName : Buf → String
   | .blockOut => "blockOut" | .fragBlock => "fragBlock" | .dataBlock => "dataBlock" | .fragOut => "fragOut"
   | .streamBuf => "streamBuf" | .inoData => "inoData" | .table => "table" | .locations => "locations"
   | .inodeExtra => "inodeExtra" | .dirEntName => "dirEntName" | .idxSrc => "idxSrc" | .idxOut => "idxOut"
-  | .path => "path"
+  | .path => "path" | .superBuf => "superBuf" | .idTable => "idTable" | .fragTable => "fragTable"
+  | .xattrIdTbl => "xattrIdTbl" | .idBlockStarts => "idBlockStarts" | .xattrDesc => "xattrDesc"
+  | .xattrKeyHdr => "xattrKeyHdr" | .xattrValHdr => "xattrValHdr" | .xattrRef => "xattrRef"
+  | .xattrKeyOut => "xattrKeyOut" | .xattrValOut => "xattrValOut" | .xattrKv => "xattrKv"
+  | .dirEntryOut => "dirEntryOut" | .nameIn => "nameIn" | .linkOut => "linkOut"
 
 def unsafeTag (acc : List Access) : String :=
   match acc.find? (fun a => !(decide a.inBounds)) with
@@ -51,11 +63,12 @@ def showRes (r : Res) : String :=
    | .ok () => showPos r.st
    | .error e => "err " ++ e.name) ++ unsafeTag r.acc
 
-/-- the stream loop of the harness: `get_buffered_data` / `advance_buffer` until eof or error -/
+/-- the stream loop of the harness: `get_buffered_data` / `advance_buffer` until eof or error, and then `extra`
+more calls on the same stream (what a failed call leaves behind is part of the comparison) -/
 def streamLoop (fixed : Bool) (im : ByteArray) (bs : UInt32) (words : Array UInt32) (fragIdx fragOff : UInt32)
-    (fstart : UInt64) (fword : UInt32) : Nat → StreamSt → UInt64 → String → List Access → String × List Access
-  | 0, _, _, out, acc => (out ++ "toolong", acc)
-  | fuel + 1, s, diskOff, out, acc =>
+    (fstart : UInt64) (fword : UInt32) : Nat → Nat → StreamSt → UInt64 → String → List Access → String × List Access
+  | 0, _, _, _, out, acc => (out ++ "toolong", acc)
+  | fuel + 1, extra, s, diskOff, out, acc =>
     let w := words.getD s.blkIdx.toNat 0
     let want := if s.filesz < bs.toUInt64 then s.filesz.toUInt32 else bs
     let l := blkLoad im diskOff w want
@@ -63,14 +76,18 @@ def streamLoop (fixed : Bool) (im : ByteArray) (bs : UInt32) (words : Array UInt
     let needFrag := !(s.bufOff < s.bufUsed) && s.filesz != 0 && !(s.blkIdx < s.blkCount)
     let r := streamFill fixed bs s w l pre.1 fragOff
     let acc := acc ++ (if needFrag then pre.2 else []) ++ r.2.2
+    let diskOff' := if s.blkIdx < s.blkCount && !(s.bufOff < s.bufUsed) && s.filesz != 0 then diskOff + (onDiskSize w).toUInt64 else diskOff
     match r.2.1 with
-    | .eof => (out ++ "eof", acc)
-    | .err e => (out ++ "err " ++ e.name, acc)
+    | .eof =>
+      if extra == 0 then (out ++ "eof", acc)
+      else streamLoop fixed im bs words fragIdx fragOff fstart fword fuel (extra - 1) r.1 diskOff (out ++ "eof ") acc
+    | .err e =>
+      if extra == 0 then (out ++ "err " ++ e.name, acc)
+      else streamLoop fixed im bs words fragIdx fragOff fstart fword fuel (extra - 1) r.1 diskOff (out ++ "err " ++ e.name ++ " ") acc
     | .data n =>
       let s' := r.1
-      let diskOff' := if s.blkIdx < s.blkCount && !(s.bufOff < s.bufUsed) then diskOff + (onDiskSize w).toUInt64 else diskOff
       -- advance_buffer(sz): buf_off += min(buf_used - buf_off, sz)
-      streamLoop fixed im bs words fragIdx fragOff fstart fword fuel { s' with bufOff := s'.bufOff + n } diskOff'
+      streamLoop fixed im bs words fragIdx fragOff fstart fword fuel extra { s' with bufOff := s'.bufOff + n } diskOff'
         (out ++ toString n ++ " ") acc
 
 def bytesToImage (l : List UInt8) : ByteArray := ByteArray.mk l.toArray
@@ -152,6 +169,110 @@ def showWalk (r : Except Err Nat) : String :=
   | .error .fuel => "diverges"
   | .error e => "err " ++ e.name
 
+
+def u16 (s : String) : Option UInt16 := (num s).map (·.toUInt16)
+
+def showR (r : Except Err Unit) : String :=
+  match r with
+  | .ok () => "ok"
+  | .error e => "err " ++ e.name
+
+/-- the window of both meta readers of the xattr reader -/
+def xCfg (s : St) : MetaCfg := ⟨s.sb.idTableStart, s.sb.bytesUsed, metaSrc s.img⟩
+
+/-- `xall`: the loop of `sqfs_xattr_reader_read_all`, one `kvRead` per pair with the answers the image gives at the
+position reached; returns entries read, sum of the value sizes -/
+def xallLoop (im : ByteArray) (c : MetaCfg) (xs xe : UInt64) : Nat → MetaSt → Nat → Nat → List Access →
+    MetaSt × Except Err (Nat × Nat) × List Access
+  | 0, m, n, sum, acc => (m, .ok (n, sum), acc)
+  | rem + 1, m, n, sum, acc =>
+    let a := envKvAns im c xs m
+    let r := kvRead c xs xe a m
+    match r.r with
+    | .error e => (r.st, .error e, acc ++ r.acc)
+    | .ok () => xallLoop im c xs xe rem r.st (n + 1) (sum + a.vsize.toNat) (acc ++ r.acc)
+
+def parseCache (spec : String) : UInt32 → Option UInt64 :=
+  let l := if spec = "-" then [] else (spec.splitOn ",").filterMap (fun t =>
+    match t.splitOn ":" with
+    | [a, b] => match num a, num b with
+      | some a, some b => some (a.toUInt32, b.toUInt64)
+      | _, _ => none
+    | _ => none)
+  fun i => (l.find? (fun p => p.1 == i)).map (·.2)
+
+def stateNum : DState → Nat
+  | .none => 0 | .opened => 1 | .dot => 2 | .entries => 3
+
+/-- `dirlist`: `sqfs_dir_reader_open_dir` (no dot entries) + `sqfs_dir_reader_read` until the end; the counters are
+`readdirStep`, header and entry fields come from the image through the meta reader model -/
+def dirlistLoop (im : ByteArray) (c : MetaCfg) : Nat → MetaSt → (block offset : UInt64) → RdState → (inodeBlock : UInt64) →
+    (n names refs : Nat) → List Access → String × List Access
+  | 0, _, _, _, _, _, n, names, refs, acc => (s!"n={n} names={names} refs={refs} toolong", acc)
+  | fuel + 1, m, block, offset, rs, inodeBlock, n, names, refs, acc =>
+    let fin (t : String) (acc : List Access) := (s!"n={n} names={names} refs={refs} " ++ t, acc)
+    -- readdir.c:101  `if (it->size <= sizeof(hdr)) goto out_eof;` comes before the header is read
+    if rs.entries == 0 && rs.size ≤ szDirHeader.toUInt64 then fin "eof" acc
+    else
+      -- header, if a new run of entries starts
+      let hdr : Except Err (MetaSt × UInt64 × UInt64 × UInt32 × UInt64) × List Access :=
+        if rs.entries == 0 then
+          let r := seek c m block offset
+          match r.r with
+          | .error e => (.error e, r.acc)
+          | .ok () =>
+            let b := envRead im c r.st szDirHeader.toUInt64
+            let r2 := mread true c r.st szDirHeader.toUInt64
+            match r2.r with
+            | .error e => (.error e, r.acc ++ r2.acc)
+            | .ok () =>
+              let count := aLe32 b 0
+              if count > (Sqfs.Consts.maxDirEnt - 1).toUInt32 then (.error .corrupted, r.acc ++ r2.acc)
+              else
+                let p := getPosition r2.st
+                (.ok (r2.st, p.1, p.2, count, (aLe32 b 4).toUInt64), r.acc ++ r2.acc)
+        else (.ok (m, block, offset, 0, inodeBlock), [])
+      match hdr with
+      | (.error e, a) => fin ("err " ++ e.name) (acc ++ a)
+      | (.ok (m1, block1, offset1, count, inodeBlock1), a) =>
+        let acc := acc ++ a
+        -- readdir.c:120  `if (it->size <= sizeof(**ent)) goto out_eof;` (the counters say so: `readdirStep` = none)
+        if (readdirStep rs count 0).isNone then fin "eof" acc else
+        let r := seek c m1 block1 offset1
+        match r.r with
+        | .error e => fin ("err " ++ e.name) (acc ++ r.acc)
+        | .ok () =>
+          let b := envRead im c r.st szDirNode.toUInt64
+          let r2 := mread true c r.st szDirNode.toUInt64
+          match r2.r with
+          | .error e => fin ("err " ++ e.name) (acc ++ r.acc ++ r2.acc)
+          | .ok () =>
+            let entOff := aLe16 b 0
+            let size := aLe16 b 6
+            let r3 := mread true c r2.st (size.toUInt64 + 1)
+            let acc := acc ++ r.acc ++ r2.acc ++ readDirEnt size ++ r3.acc
+            match r3.r with
+            | .error e => fin ("err " ++ e.name) acc
+            | .ok () =>
+              let p := getPosition r3.st
+              match readdirStep rs count size with
+              | none => fin "eof" acc        -- not reached: tested above
+              | some rs' =>
+                dirlistLoop im c fuel r3.st p.1 p.2 rs' inodeBlock1 (n + 1) (names + size.toNat + 1)
+                  ((refs + (entryRef inodeBlock1 entOff).toNat) % 4294967296) acc
+
+/-- `walk`: the repaired walks (visited set, nesting limit `limit` = `SQFS_MAX_DIR_NESTING` of the tree; fuel as in
+`fill_dir_depth_bounded` / `dir_rec_depth_bounded`, so `diverges` cannot be answered); with `current` the walks of
+the tree without `fixes/C05-dir-visited-set.patch` and `fixes/C05-nesting-limit.patch` (ancestor checks only) -/
+def walkOp (fixed : Bool) (limit : Nat) (spec : String) : String :=
+  match parseGraph spec with
+  | some (g, root, n) =>
+    if fixed then
+      "tree " ++ showWalk (readTreeV g limit (limit + 2) root) ++ " tar " ++ showWalk (tarWalkV g limit (limit + 1) root)
+    else
+      "tree " ++ showWalk (readTree g (n + 2) root) ++ " tar " ++ showWalk (tarWalk true g (n + 3) root)
+  | none => "bad-op"
+
 def step (s : St) (line : String) : St × String :=
   match words line with
   | ["img", h] => match fromHex h with
@@ -162,7 +283,7 @@ def step (s : St) (line : String) : St × String :=
       | _, _ => (s, "bad-op")
   | ["seek", a, b] => match s.cfg, u64 a, u64 b with
       | some c, some a, some b =>
-        let r := seek (mkCfg s c) s.m a b
+        let r := seekG s.fixed (mkCfg s c) s.m a b
         ({ s with m := r.st }, showRes r)
       | _, _, _ => (s, "bad-op")
   | ["read", a] => match s.cfg, u64 a with
@@ -190,7 +311,7 @@ def step (s : St) (line : String) : St × String :=
       | some bs, some filesz, some start, some fidx, some foff, some fstart, some fword, some ws =>
         if bs == 0 then (s, "bad-op") else
         let st : StreamSt := ⟨0, 0, filesz, 0, ws.size.toUInt32, false⟩
-        let r := streamLoop s.fixed s.img bs ws fidx foff fstart fword 4098 st start "" []
+        let r := streamLoop s.fixed s.img bs ws fidx foff fstart fword 4104 2 st start "" []
         (s, r.1 ++ unsafeTag r.2)
       | _, _, _, _, _, _, _, _ => (s, "bad-op")
   | ["getblk", bs, filesz, start, idx, ws] =>
@@ -244,9 +365,168 @@ def step (s : St) (line : String) : St × String :=
         let r := resolveCompare s.fixed nm pa
         (s, (if r.1 then "ok" else "err NO_ENTRY") ++ unsafeTag r.2)
       | _, _ => (s, "bad-op")
-  | ["walk", spec] => match parseGraph spec with
-      | some (g, root, n) =>
-        (s, "tree " ++ showWalk (readTree g (n + 2) root) ++ " tar " ++ showWalk (tarWalk s.fixed g (n + 3) root))
+  | ["super", h] => match fromHex h with
+      | some b =>
+        let im := bytesToImage b
+        let r := superRead (readFails im 0 Sqfs.Consts.sizeofSuper) (parseSuper im)
+        (s, showR r.1 ++ unsafeTag r.2)
+      | none => (s, "bad-op")
+  | ["sb", fl, idc, frc, bu, idt, xat, ino, dts, fts, ets, root, bs] =>
+      match u16 fl, u16 idc, u32 frc, u64 bu, u64 idt, u64 xat, u64 ino, u64 dts, u64 fts, u64 ets, u64 root, u32 bs with
+      | some fl, some idc, some frc, some bu, some idt, some xat, some ino, some dts, some fts, some ets, some root, some bs =>
+        let sb : Super :=
+          { (default : Super) with
+            flags := fl, idCount := idc, fragCount := frc, bytesUsed := bu, idTableStart := idt,
+            xattrIdTableStart := xat, inodeTableStart := ino, dirTableStart := dts, fragTableStart := fts,
+            exportTableStart := ets, rootRef := root, blockSize := bs }
+        ({ s with sb := sb }, "ok")
+      | _, _, _, _, _, _, _, _, _, _, _, _ => (s, "bad-op")
+  | ["idtable"] =>
+      match idTableReq s.sb with
+      | .error e => ({ s with ids := #[], idUsed := 0 }, "err " ++ e.name)
+      | .ok req =>
+        match readTableEnv s.img req with
+        | (.error e, acc) => ({ s with ids := #[], idUsed := 0 }, "err " ++ e.name ++ unsafeTag acc)
+        | (.ok tbl, acc) =>
+          let r := idTableRead s.sb (.ok ())
+          ({ s with ids := tbl, idUsed := s.sb.idCount.toUInt64 }, showR r.1 ++ unsafeTag (acc ++ r.2))
+  | ["idx", i] => match u16 i with
+      | some i => match indexToId s.idUsed i with
+        | .error e => (s, "err " ++ e.name)
+        | .ok acc => (s, s!"ok {aLe32 s.ids (i.toNat * 4)}" ++ unsafeTag acc)
+      | none => (s, "bad-op")
+  | ["fragtable"] =>
+      match fragTableReq s.sb with
+      | .error e => ({ s with frags := #[], fragUsed := 0 }, "err " ++ e.name)
+      | .ok none => ({ s with frags := #[], fragUsed := 0 }, "ok")
+      | .ok (some req) =>
+        match readTableEnv s.img req with
+        | (.error e, acc) => ({ s with frags := #[], fragUsed := 0 }, "err " ++ e.name ++ unsafeTag acc)
+        | (.ok tbl, acc) => ({ s with frags := tbl, fragUsed := s.sb.fragCount.toUInt64 }, "ok" ++ unsafeTag acc)
+  | ["fragidx", i] => match u32 i with
+      | some i => match fragLookup s.fragUsed i with
+        | .error e => (s, "err " ++ e.name)
+        | .ok acc => (s, s!"ok {aLe64 s.frags (i.toNat * 16)} {aLe32 s.frags (i.toNat * 16 + 8)}" ++ unsafeTag acc)
+      | none => (s, "bad-op")
+  | ["xnew"] => ({ s with x := XattrSt.init, xpos := false }, "ok")
+  | ["xload"] =>
+      let st := s.sb.xattrIdTableStart
+      let r := xattrLoad s.sb s.x (readFails s.img st szXattrIdTable) (le64 s.img st.toNat) (le32 s.img (st.toNat + 8))
+        (readFails s.img (st + szXattrIdTable.toUInt64) (8 * (xattrIdBlocks (le32 s.img (st.toNat + 8)).toUInt64).toNat))
+        (fun i => le64 s.img ((st + szXattrIdTable.toUInt64).toNat + 8 * i))
+      ({ s with x := r.st, xpos := false }, showR r.r ++ unsafeTag r.acc)
+  | ["xdesc", i] => match u32 i with
+      | some i =>
+        let c := xCfg s
+        let r := xattrGetDesc c s.x i
+        -- the descriptor the call delivers: zeroes unless the table was read
+        let read := i != 0xFFFFFFFF && s.x.loaded && i.toUInt64 < s.x.numIds
+        let pos := i.toUInt64 * szXattrId.toUInt64
+        let d := if read then
+            envRead s.img c (seek c s.x.idrd (s.x.blockStarts (pos / metaCap.toUInt64).toNat) (pos % metaCap.toUInt64)).st
+              szXattrId.toUInt64
+          else #[]
+        ({ s with x := r.st }, (match r.r with
+          | .ok () => s!"ok {aLe64 d 0} {aLe32 d 8} {aLe32 d 12}"
+          | .error e => "err " ++ e.name) ++ unsafeTag r.acc)
+      | none => (s, "bad-op")
+  | ["xseek", v] => match u64 v with
+      | some v =>
+        let r := xattrSeekKv (xCfg s) s.x v
+        ({ s with x := r.st, xpos := r.r.isOk }, showR r.r ++ unsafeTag r.acc)
+      | none => (s, "bad-op")
+  | ["xkey"] =>
+      if !s.x.loaded || !s.xpos then (s, "bad-op") else
+      let c := xCfg s
+      let a := envKvAns s.img c s.x.xattrStart s.x.kvrd
+      let r := kvReadKey c a s.x.kvrd
+      ({ s with x := { s.x with kvrd := r.st } }, (match r.r with
+        | .ok () => s!"ok {a.ktype} {a.ksize}"
+        | .error e => "err " ++ e.name) ++ unsafeTag r.acc)
+  | ["xval", t] => match u16 t with
+      | some t =>
+        if !s.x.loaded || !s.xpos then (s, "bad-op") else
+        let c := xCfg s
+        -- the stream is at a value header: first header, reference and second header as `read_value_hdr` sees them
+        let v := envRead s.img c s.x.kvrd 4
+        let m1 := (mread true c s.x.kvrd 4).st
+        let ref := aLe64 (envRead s.img c m1 8) 0
+        let m2 := (mread true c m1 8).st
+        let m3 := (seek c m2 (s.x.xattrStart + (ref >>> 16)) (ref &&& 0xFFFF)).st
+        let a : KvAns := if isOol t then ⟨t, 0, aLe32 (envRead s.img c m3 4) 0, ref⟩ else ⟨t, 0, aLe32 v 0, 0⟩
+        let r := kvReadValue c s.x.xattrStart s.x.xattrEnd a s.x.kvrd
+        ({ s with x := { s.x with kvrd := r.st } }, (match r.r with
+          | .ok () => s!"ok {a.vsize}"
+          | .error e => "err " ++ e.name) ++ unsafeTag r.acc)
+      | none => (s, "bad-op")
+  | ["xall", i] => match u32 i with
+      | some i =>
+        if i == 0xFFFFFFFF then (s, "ok 0 0") else
+        let c := xCfg s
+        let d := xattrGetDesc c s.x i
+        match d.r with
+        | .error e => ({ s with x := d.st }, "err " ++ e.name ++ unsafeTag d.acc)
+        | .ok () =>
+          let read := s.x.loaded && i.toUInt64 < s.x.numIds
+          let pos := i.toUInt64 * szXattrId.toUInt64
+          let db := if read then
+              envRead s.img c (seek c s.x.idrd (s.x.blockStarts (pos / metaCap.toUInt64).toNat) (pos % metaCap.toUInt64)).st
+                szXattrId.toUInt64
+            else #[]
+          let k := xattrSeekKv c d.st (aLe64 db 0)
+          match k.r with
+          | .error e => ({ s with x := k.st }, "err " ++ e.name ++ unsafeTag (d.acc ++ k.acc))
+          | .ok () =>
+            let r := xallLoop s.img c k.st.xattrStart k.st.xattrEnd (aLe32 db 8).toNat k.st.kvrd 0 0 (d.acc ++ k.acc)
+            ({ s with x := { k.st with kvrd := r.1 } }, (match r.2.1 with
+              | .ok (n, sum) => s!"ok {n} {sum}"
+              | .error e => "err " ++ e.name) ++ unsafeTag r.2.2)
+      | none => (s, "bad-op")
+  | ["dopen", rdf, of, ty, sblk, off, sz, inum, par, cache] =>
+      match u32 rdf, u32 of, u16 ty, u32 sblk, u16 off, u32 sz, u32 inum, u32 par with
+      | some rdf, some of, some ty, some sblk, some off, some sz, some inum, some par =>
+        if rdf > 1 then (s, "bad-op") else
+        let sz := if ty == 1 then (sz.toUInt16).toUInt32 else sz          -- `dir.size` is a 16 bit field
+        match openDir (rdf == 1) of s.sb.dirTableStart s.sb.rootRef (parseCache cache) ⟨ty, sblk, off, sz, inum, par⟩ with
+        | .error e => (s, "err " ++ e.name)
+        | .ok st =>
+          let base := s!"ok {st.block} {st.offset} {st.size} {stateNum st.state} {st.dirRef} {st.parentRef}"
+          match dirReadDot st with
+          | some (.ok st1, a1) =>
+            match dirReadDot st1 with
+            | some (.ok st2, a2) => (s, base ++ s!" . {st1.entRef} .. {st2.entRef} {stateNum st2.state}" ++ unsafeTag (a1 ++ a2))
+            | _ => (s, base ++ " ?")
+          | _ => (s, base)
+      | _, _, _, _, _, _, _, _ => (s, "bad-op")
+  | ["dirlist", sblk, off, sz] =>
+      match u32 sblk, u16 off, u32 sz with
+      | some sblk, some off, some sz =>
+        -- the window of `meta_dir` (dir_reader.c:150-159)
+        let limit := s.sb.idTableStart
+        let limit := if s.sb.fragTableStart < limit then s.sb.fragTableStart else limit
+        let limit := if s.sb.exportTableStart < limit then s.sb.exportTableStart else limit
+        let c : MetaCfg := ⟨s.sb.dirTableStart, limit, metaSrc s.img⟩
+        match openDir false 0 s.sb.dirTableStart s.sb.rootRef (fun _ => none) ⟨8, sblk, off, sz, 1, 1⟩ with
+        | .error e => (s, "err " ++ e.name)
+        | .ok st =>
+          let r := dirlistLoop s.img c 5001 MetaSt.init st.block st.offset ⟨st.size, 0⟩ 0 0 0 0 []
+          (s, r.1 ++ unsafeTag r.2)
+      | _, _, _ => (s, "bad-op")
+  | ["dentry", used, ui, gi, len, nm] =>
+      match u64 used, u16 ui, u16 gi, u64 len, fromHex nm with
+      | some used, some ui, some gi, some len, some nm =>
+        if len.toNat > nm.length + 1 then (s, "bad-op") else
+        let r := dirEntryFromInode used ui gi nm len
+        (s, (match r.1 with
+          | .ok () => s!"ok {entryNameLen nm len}"
+          | .error e => "err " ++ e.name) ++ unsafeTag r.2)
+      | _, _, _, _, _ => (s, "bad-op")
+  | ["codecret", outsize, ret] => match u32 outsize, ret.toInt? with
+      | some o, some r => (s, if codecContract o r then "ok" else "VIOLATES")
+      | _, _ => (s, "bad-op")
+  | ["walk", spec] => (s, walkOp s.fixed 4096 spec)
+  | ["walkl", limit, spec] => match num limit with
+      | some limit => (s, walkOp s.fixed limit spec)
       | none => (s, "bad-op")
   | _ => (s, "bad-op")
 
